@@ -223,7 +223,28 @@ VF_PROPERTY(direct_wide_sources, 3, "Convert::To<T>(S) for S in int32/uint32/int
 #if C04_PART == 0 || C04_PART == 2
 VF_PROPERTY(carrier_msgpack, 4, "value of type S saved by the library into MsgPack at root / array element / object member / map key, loaded into type T under the 4 policy combinations from memory and streams; also checks that neighbours are untouched and a skipped target keeps its value; non-trivial = S != T or not exactly representable") { carrier_prop<MsgPackArchive>(c, MSGPACK); }
 #endif
+#if C04_PART == 0 || C04_PART == 2 || C04_PART == 3
+// enumerations stored by value: EnumAsBin loads a number into the enum's underlying type - the same "exactly or reported" rule applies
+namespace {
+enum class E8 : uint8_t { A = 0, B = 3, C = 255 }; enum class E16 : int16_t { A = -32768, B = 0, C = 32767 }; enum class E64 : int64_t { A = 0, B = 5 };
+template <class E> struct EnumHolder { int before = 0; E e{}; int after = 0; template <class Ar> void Serialize(Ar& ar) { ar << KeyValue("before", before) << KeyValue("e", EnumAsBin(e)) << KeyValue("after", after); } };
+struct IntHolder { int before = 7; int64_t e = 0; int after = 9; template <class Ar> void Serialize(Ar& ar) { ar << KeyValue("before", before) << KeyValue("e", e) << KeyValue("after", after); } };
+template <class A, class E> void enum_as_bin_case(vf::Ctx& c, int archId) {
+	using U = std::underlying_type_t<E>; using L = std::numeric_limits<U>;
+	int64_t v; switch (c.src.draw(4)) { case 0: v = static_cast<int64_t>(L::min()) - 1 - static_cast<int64_t>(c.src.draw(3)) * (sizeof(U) < 8); break; case 1: v = static_cast<int64_t>(L::max()) + (sizeof(U) < 8 ? 1 + static_cast<int64_t>(c.src.draw(300)) : 0); break; case 2: v = c.src.coin() ? L::min() : L::max(); break; default: v = static_cast<int64_t>(c.src.draw(200001)) - 100000; }
+	const bool fits = v >= static_cast<int64_t>(L::min()) && v <= static_cast<int64_t>(L::max());
+	Cfg cfg; cfg.stream = c.src.coin(); gen_policies(c.src, cfg.opt); IntHolder src; src.e = v; std::string bytes; Cfg mem; if (!save<A>(src, bytes, mem).ok()) c.fail("saving an integer failed", "");
+	c.nontrivial = !fits; c.describe(vf::cat(arch_name(archId), " EnumAsBin<", sizeof(U) * 8, std::is_signed_v<U> ? "s" : "u", "> <- ", v, " ", cfg.str()));
+	EnumHolder<E> dst; dst.e = static_cast<E>(static_cast<U>(1)); Outcome lo = load<A>(dst, bytes, cfg);
+	const std::string d = vf::cat(arch_name(archId), " EnumAsBin underlying ", sizeof(U) * 8, " bit <- ", v, " [", cfg.str(), "] => ", lo.str(), " loaded ", static_cast<int64_t>(static_cast<U>(dst.e)));
+	if (fits) { if (!lo.ok() || static_cast<int64_t>(static_cast<U>(dst.e)) != v || dst.before != 7 || dst.after != 9) c.fail("representable value not loaded exactly", d); return; }
+	if (cfg.opt.overflowNumberPolicy == OverflowNumberPolicy::ThrowError) { if (lo.ok()) c.fail("unrepresentable / other-kind value loaded (truncated, wrapped or sign changed)", d); if (lo.k != Outcome::SerEx || lo.code != SerializationErrorCode::Overflow) c.fail("unrepresentable value reported with a wrong error", d); }
+	else { if (!lo.ok()) c.fail("value not skipped although the policy is Skip", d); if (static_cast<U>(dst.e) != static_cast<U>(1)) c.fail("unrepresentable / other-kind value loaded (truncated, wrapped or sign changed)", d); if (dst.before != 7 || dst.after != 9) c.fail("neighbour of a skipped value disturbed", d); }
+}
+}
+#endif
 #if C04_PART == 0 || C04_PART == 3
+VF_PROPERTY(enum_as_bin_json, 1, "integers around and beyond the limits of an enum's underlying type (uint8, int16, int64) loaded through EnumAsBin from JSON under both overflow policies; non-trivial = value outside the underlying type") { switch (c.src.draw(3)) { case 0: enum_as_bin_case<JsonArchive, E8>(c, JSON); break; case 1: enum_as_bin_case<JsonArchive, E16>(c, JSON); break; default: enum_as_bin_case<JsonArchive, E64>(c, JSON); } }
 VF_PROPERTY(carrier_json, 4, "same through JSON (root, array element, object member, map key as string)") { carrier_prop<JsonArchive>(c, JSON); }
 #endif
 #if C04_PART == 0 || C04_PART == 4
@@ -234,6 +255,7 @@ VF_PROPERTY(carrier_csv, 2, "same through a CSV cell (two rows)") { carrier_prop
 
 #endif
 #if C04_PART == 0 || C04_PART == 2
+VF_PROPERTY(enum_as_bin_msgpack, 1, "same through MessagePack") { switch (c.src.draw(3)) { case 0: enum_as_bin_case<MsgPackArchive, E8>(c, MSGPACK); break; case 1: enum_as_bin_case<MsgPackArchive, E16>(c, MSGPACK); break; default: enum_as_bin_case<MsgPackArchive, E64>(c, MSGPACK); } }
 VF_PROPERTY(carrier_msgpack_any_format, 4, "integer / float / bool encoded by the independent MsgPack encoder in ANY legal format (fixint, uint8..64, int8..64, float32/64 when exact) at array-element and member position, loaded into each of 11 types; non-trivial = non-minimal format or not representable")
 {
 	const size_t ti = c.src.draw(NTYPES); Cfg cfg; cfg.stream = c.src.coin(); cfg.streamKind = cfg.stream ? static_cast<int>(c.src.draw(2)) : 0; cfg.chunk = 1 + c.src.draw(9); gen_policies(c.src, cfg.opt);
